@@ -1417,18 +1417,29 @@ Proof.
   rewrite Hr in Hin. exact Hin.
 Qed.
 
-From Typify Require Algo.Defaults Proofs.DefaultsProofs.
+From Typify Require Algo.Defaults.
 (* ================================================================== Part 6: defaults.
    `impl Default` and the serde default functions build a newtype through its private constructor,
    from the default value [d] recorded in the type space.  A value that passed the add-time check
    (Algo/Defaults.validate_value, C06's model of defaults.rs after fix 9117497, tied by C06's check)
    satisfies the newtype's constraint, i.e. it is a value the type's own Deserialize accepts. *)
+(* local copy of DefaultsProofs.newtype_default_checked (C06_newtype_default_checked), so that this file
+   depends on the definitions Algo/Defaults.v only *)
+Lemma newtype_default_checked_local re T f t name def inner c d k :
+  get_det T t = Some (DNewtype name def inner c) ->
+  Defaults.validate_value re T (S f) t d = Defaults.ROk k -> Defaults.constraint_ok re c d = true.
+Proof.
+  intros Hg H. cbn [Defaults.validate_value] in H. rewrite Hg in H. cbn [Defaults.validate_det] in H.
+  destruct (Defaults.validate_value re T f inner d); cbn [Defaults.rbind] in H; try discriminate.
+  destruct (Defaults.constraint_ok re c d); [reflexivity | discriminate H].
+Qed.
+
 Theorem validated_default_satisfies_string re T f t name def inner mx mn pat d k :
   get_det T t = Some (DNewtype name def inner (CString mx mn pat)) ->
   Defaults.validate_value re T (S f) t d = Defaults.ROk k ->
   exists s, d = JStr s /\ str_constraints_ok re mx mn pat s = true.
 Proof.
-  intros E H. apply (DefaultsProofs.newtype_default_checked re T f t name def inner _ d k E) in H.
+  intros E H. apply (newtype_default_checked_local re T f t name def inner _ d k E) in H.
   cbn [Defaults.constraint_ok] in H. destruct d; try discriminate. exists s. split; [reflexivity|].
   unfold str_constraints_ok. unfold Defaults.opt_geb, Defaults.opt_leb in H. exact H.
 Qed.
@@ -1452,7 +1463,7 @@ Theorem validated_default_satisfies_list re T f t name def inner c d k :
   | _ => True
   end.
 Proof.
-  intros E H. apply (DefaultsProofs.newtype_default_checked re T f t name def inner _ d k E) in H.
+  intros E H. apply (newtype_default_checked_local re T f t name def inner _ d k E) in H.
   destruct c; try exact I; cbn [Defaults.constraint_ok] in H; [exact H | apply negb_true_iff; exact H].
 Qed.
 
